@@ -990,6 +990,49 @@ pub fn run(opts: &Opts) -> Run {
     let mut rng = Rng::new(opts.seed);
     let scale: usize = if opts.thorough { 10 } else { 1 };
     start_watchdog();
+    // ---- one table OBJECT used again: building a table into an object that already holds one (the decoder's scratch tables
+    // live across blocks and frames), or copying one into it (`reinit_from`, dictionaries), must give exactly the table a
+    // fresh object gets — also when old and new table have the same accuracy log, size and number of symbols
+    {
+        let mut r2 = Rng::new(opts.seed ^ 0x7ab1e);
+        for k in 0..(if opts.thorough { 3000 } else { 300 }) {
+            let al1 = r2.range(5, 9) as u8;
+            let same_shape = k % 2 == 0;
+            let al2 = if same_shape { al1 } else { r2.range(5, 9) as u8 };
+            let n1 = r2.range(2, 40) as usize;
+            let n2 = if same_shape { n1 } else { r2.range(2, 40) as usize };
+            let mut p1 = gen_valid_probs(&mut r2, al1, n1);
+            let mut p2 = gen_valid_probs(&mut r2, al2, n2);
+            if same_shape {
+                let n = p1.len().max(p2.len());
+                p1.resize(n, 0);
+                p2.resize(n, 0);
+            }
+            let (q1, q2) = (p1.clone(), p2.clone());
+            let res = guarded(move || {
+                let mut fresh = FSETable::new(255);
+                let a = fresh.build_from_probabilities(al2, &q2).is_ok();
+                let mut used = FSETable::new(255);
+                let _ = used.build_from_probabilities(al1, &q1);
+                let b = used.build_from_probabilities(al2, &q2).is_ok();
+                let mut copied = FSETable::new(255);
+                let _ = copied.build_from_probabilities(al1, &q1);
+                copied.reinit_from(&fresh);
+                let key = |t: &FSETable| (t.accuracy_log, t.decode.iter().map(|e| (e.symbol, e.num_bits, e.base_line)).collect::<Vec<_>>(), t.symbol_probabilities.clone());
+                (a, b, key(&fresh) == key(&used), key(&fresh) == key(&copied))
+            });
+            run.oracle_checks += 2;
+            if let Ok((a, b, same_built, same_copied)) = res {
+                if a && (!b || !same_built) {
+                    run.fail("C12", "table_object_reuse", format!("building the distribution {:?} (accuracy log {}) into a table object that held {:?} (accuracy log {}) does not give the table a fresh object gets", p2, al2, p1, al1), format!("fse fromprobs {} {}", al2, p2.iter().map(|x| x.to_string()).collect::<Vec<_>>().join(",")));
+                }
+                if a && !same_copied {
+                    run.fail("C12", "table_reinit_from", format!("reinit_from of the table for {:?} (accuracy log {}) into an object that held {:?} is not a copy of the source", p2, al2, p1), format!("fse fromprobs {} {}", al2, p2.iter().map(|x| x.to_string()).collect::<Vec<_>>().join(",")));
+                }
+            }
+            run.stat("table_object_reuse_cases", 1);
+        }
+    }
     if std::env::var_os("VERIF_PANIC_TRACE").is_some() {
         // debugging aid: also print every panic location (the harness' hook is silent)
         let prev = std::panic::take_hook();
